@@ -102,6 +102,19 @@ def function_level(v, vec, tier, rnd):
             v.violation('get_network / get_port differ from the smallest covering network / the port rule', {'case': c, 'got': str(ts.get_network())},
                         signature={'component': 'tonetwork'})
             break
+    # the conversion at the edges of both address spaces: every prefix length at the lowest, the highest and an ordinary address (`::/0`, "all IPv6 traffic", is
+    # a configured network like any other - and it is a network of ITS family whatever its numeric value)
+    for base in ('::', 'ffff:ffff:ffff:ffff:ffff:ffff:ffff:ffff', '2001:db8:a::', '0.0.0.0', '255.255.255.255', '10.1.2.3', '::ffff:0:0', '::1:0:0:0'):
+        fam_bits = 128 if ':' in base else 32
+        for plen in range(fam_bits + 1):
+            net = ipaddress.ip_network(f'{base}/{plen}', strict=False)
+            ts = M.TrafficSelector.from_network(net, 0, 0)
+            back = ts.get_network()
+            n += 1
+            if back != net or back.version != net.version or (ts.start_addr, ts.end_addr) != (net[0], net[-1]):
+                v.violation(f'network -> selector -> network is not the identity for {net}: {back!r}', {'net': str(net), 'back': str(back)},
+                            signature={'component': 'convert-edge', 'family': net.version})
+                break
     # beyond the universe: random IPv4 / IPv6 ranges, interval arithmetic as oracle (the same definition)
     m = 3000 if tier == 'quick' else 200000
     for i in range(m):
